@@ -29,7 +29,7 @@ CRATES = {
 }
 
 CHECK_RE = re.compile(
-    r"^Check (\d+): (\S+)\n\s+- Status: (\w+)\n\s+- Description: \"(.*)\"\n(?:\s+- Location: (.*)\n)?",
+    r"^Check (\d+): (.+)\n\s+- Status: (\w+)\n\s+- Description: \"(.*)\"\n(?:\s+- Location: (.*)\n)?",
     re.M,
 )
 
@@ -111,6 +111,14 @@ def parse_output(out):
                 res["unwind_failed"].append(item)
             else:
                 res["failed"].append(item)
+    m = re.search(r"\*\* (\d+) of (\d+) failed", out)
+    res["summary_failed"], res["summary_total"] = (int(m.group(1)), int(m.group(2))) if m else (None, None)
+    n_noncover = res["n_checks"] - len(res["covers"])
+    if m and (res["summary_total"] != n_noncover or res["summary_failed"] != len(res["failed"]) + len(res["unwind_failed"])):
+        # the parser and Kani's own summary disagree: never trust such a run
+        res["status"] = "error"
+        res["parse_mismatch"] = f"parsed {n_noncover} checks / {len(res['failed']) + len(res['unwind_failed'])} failed, summary says {res['summary_total']} / {res['summary_failed']}"
+        return res
     if "VERIFICATION:- SUCCESSFUL" in out:
         res["status"] = "success"
     elif "VERIFICATION:- FAILED" in out:
